@@ -1109,9 +1109,19 @@ def rule_destroy(ctx, rep, rid):
                   "synchronous %s only when the table has no AUTO_RESIZE worker" % (c.callee or "free(ht)"),
                   "%s can run synchronously in cds_lfht_destroy on an AUTO_RESIZE table: the resize worker may still be using the table (it clears resize_initiated "
                   "before its last accesses to ht)" % (c.callee or "free(ht)"), [c.where()])
-    q = pat.calls(w, "urcu_workqueue_queue_work")
+    q = pat.calls_opt(w, "urcu_workqueue_queue_work")
+    pre = []
+    w0 = w
+    if not q:
+        # the deferred branch may live in a static helper called from cds_lfht_destroy: the guards in front of the call carry over
+        hs = [c for c in w.calls() if m.fn(c.callee) is not None and pat.calls_opt(m.fn(c.callee), "urcu_workqueue_queue_work")]
+        pat.require(len(hs) == 1, "cds_lfht_destroy: queue_work")
+        pre = list(pat.dom_leaf_atoms(w, hs[0]))
+        w = m.fn(hs[0].callee)
+        rep.touch(w)
+        q = pat.calls(w, "urcu_workqueue_queue_work")
     pat.require(len(q) == 1, "cds_lfht_destroy: queue_work")
-    lv = pat.dom_leaf_atoms(w, q[0])
+    lv = pre + list(pat.dom_leaf_atoms(w, q[0]))
     rep.check(any(is_auto(a) for a in lv), rid, "destroy.deferred-iff-auto", "teardown is queued behind pending resize work exactly for AUTO_RESIZE tables",
               "deferred teardown is not guarded by the AUTO_RESIZE flag", [q[0].where()])
     extra = [a for a in lv if not is_auto(a) and not (a[1][0] == "call" and a[1][1] == "cds_lfht_is_empty")]
